@@ -1270,6 +1270,19 @@ static void union_initializer(Token **rest, Token *tok, Initializer *init) {
 //             | struct-initializer | union-initializer
 //             | assign
 static void initializer2(Token **rest, Token *tok, Initializer *init) {
+  // A string literal initializing an array may be enclosed in braces.
+  if (init->ty->kind == TY_ARRAY && is_integer(init->ty->base) &&
+      equal(tok, "{") && tok->next->kind == TK_STR) {
+    Token *end = tok->next->next;
+    if (equal(end, ","))
+      end = end->next;
+    if (equal(end, "}")) {
+      initializer2(&tok, tok->next, init);
+      *rest = end->next;
+      return;
+    }
+  }
+
   if (init->ty->kind == TY_ARRAY && tok->kind == TK_STR &&
       is_integer(init->ty->base)) {
     if (init->ty->base->size != tok->ty->base->size)
